@@ -795,7 +795,20 @@ func (g *dgen) session(tier string, idx int) {
 		g.emit(fmt.Sprintf("w %d %d %s", g.ts, b, hexArgs(a)))
 		g.open = b == 0
 		if b == 1 && strings.Contains(sh, "s") && g.p(0.12) {
+			delPF := ""
+			if g.p(0.4) {
+				// DEL of a HyperLogLog that lives only in the write-back cache of the live replica and on disk in the
+				// restarted one: the key must be gone on both (seed C07-m1 of round 3: the live one kept it)
+				delPF = dataNS + ":t:pf" + g.pick([]string{"0", "1", "2"})
+				g.stepClock()
+				g.emit(fmt.Sprintf("w %d 1 %s", g.ts, hexArgs([]string{"pfadd", delPF, "e" + strconv.Itoa(g.rng.Intn(4))})))
+			}
 			g.emit("restart")
+			if delPF != "" {
+				g.stepClock()
+				g.emit(fmt.Sprintf("w %d 1 %s", g.ts, hexArgs([]string{"del", delPF})))
+				g.emit("r " + hexArgs([]string{"pfcount", delPF}))
+			}
 			if g.p(0.5) {
 				// right after the restart: a PFADD that (most likely) adds nothing new to a HyperLogLog that is only on disk now
 				g.stepClock()
@@ -828,6 +841,8 @@ func genData(rng *rand.Rand, tier string, emit func(string)) {
 	if tier == "thorough" {
 		n = 3000
 	}
+	emit("pfwin eng=pebble pol=compact")
+	emit("pfwin eng=mem pol=local")
 	for i := 0; i < n; i++ {
 		g.session(tier, i)
 		if (tier != "thorough" && i == 2) || (tier == "thorough" && i%150 == 2) {
